@@ -92,7 +92,13 @@ FAULT_CODE = {"RuntimeError": 'raise RuntimeError("c15 boom")', "SystemExit": "r
               "ImportError": 'raise ImportError("c15 import error")', "PanicException": "raise " + PANIC, "OSError": 'raise OSError("c15 os error")'}
 WALK_FAULTS = ["SystemExit", "RuntimeError", "KeyboardInterrupt", "OSError", "ImportError", "PanicException"]
 CONVERTED_WALK = ("SystemExit", "ImportError")    # walk faults the handlers of _inspect_module turn into ImportError (walk_convertible in Coq)
-EFFECTS = [["ins0", "/c15x/e0"], ["app", "/c15x/e1"], ["clear"], ["rebind", ["/c15x/r0", "/c15x/r1"]], ["rebind", []], ["ins0", "/c15x/e2"]]
+STDLIB = os.path.dirname(os.__file__)       # where the nested (successful) imports of the generated code come from
+# ["scope", paths, inner effects, how]: the body calls back into Griffe at import time -- a nested `with sys_path(...)`
+EFFECTS = [["ins0", "/c15x/e0"], ["app", "/c15x/e1"], ["clear"], ["rebind", ["/c15x/r0", "/c15x/r1"]], ["rebind", []], ["ins0", "/c15x/e2"],
+           ["scope", ["/c15x/n0"], [["ins0", "/c15x/e3"], ["scope", ["/c15x/n1"], [["clear"]], "sys_path"], ["app", "/c15x/e4"]], "sys_path"],
+           ["scope", ["/c15x/n2", "/c15x/n3"], [], "dynamic_import_fail"], ["scope", [STDLIB], [], "dynamic_import_ok"],
+           ["scope", [STDLIB], [], "inspect_ok"], ["scope", [STDLIB], [], "load_ok"], ["scope", ["/c15x/n4"], [], "load_fail"],
+           ["scope", [], [["ins0", "/c15x/e5"]], "sys_path"], ["scope", ["/c15x/n5"], [["rebind", ["/c15x/r2"]], ["ins0", "/c15x/e6"]], "sys_path"]]
 SO_NAME = "{}.cpython-312-x86_64-linux-gnu.so"
 SUFFIX = {"init": ".py", "py": ".py", "pyi": ".pyi", "initpyi": ".pyi", "pyc": ".pyc", "so": ".so"}
 ALL_EXN = ["SystemExit", "KeyboardInterrupt", "RuntimeError", "AttributeError", "ImportError", "ModuleNotFoundError", "SyntaxError",
@@ -287,7 +293,39 @@ HEADER = ('_o = __import__("os"); _s = __import__("sys"); _j = __import__("json"
           '_b.__dict__.setdefault("_c15_hits", []).append(__name__)\n')
 
 
-def effect_code(e):
+def effect_code(e, ind=""):
+    if e[0] == "scope":
+        paths, inner, how = list(e[1]), e[2], e[3]
+        g = '__import__("griffe")'
+        nested = lambda call: (f"{ind}_b._c15_nested = True\n{ind}try:\n{ind}    {call}\n{ind}except ImportError:\n{ind}    pass\n"       # noqa: E731
+                               f"{ind}finally:\n{ind}    _b._c15_nested = False")
+        if how == "sys_path":
+            body = "\n".join(effect_code(x, ind + "    ") for x in inner) or f"{ind}    pass"
+            return f"{ind}with {g}.sys_path(*{paths!r}):\n{body}"
+        if how == "dynamic_import_fail":
+            return nested(f'{g}.dynamic_import("c15_nested_missing_zz.attr", {paths!r})')
+        if how == "dynamic_import_ok":
+            return nested(f'{g}.dynamic_import("colorsys.rgb_to_hls", {paths!r})')
+        if how == "inspect_ok":
+            return nested(f'{g}.inspect("colorsys", import_paths={paths!r})')
+        if how == "load_ok":
+            return nested(f'{g}.load("colorsys", search_paths={paths!r}, force_inspection=True, try_relative_path=False)')
+        return nested(f'{g}.load("c15_nested_missing_zz", search_paths={paths!r}, force_inspection=True, try_relative_path=False)')
+    return ind + _effect_code(e)
+
+
+def enc_effect(e):
+    """effect -> the model's s-expression"""
+    if e[0] in ("ins0", "app"):
+        return [e[0], parts_of(e[1])]
+    if e[0] == "rebind":
+        return ["rebind", [parts_of(x) for x in e[1]]]
+    if e[0] == "scope":
+        return ["scope", [parts_of(x) for x in e[1]], [enc_effect(x) for x in e[2]]]
+    return [e[0]]
+
+
+def _effect_code(e):
     if e[0] == "ins0":
         return f"_s.path.insert(0, {e[1]!r})"
     if e[0] == "app":
@@ -483,7 +521,7 @@ def world_of(base, tree, case, order=None):
             elif m["vfault"]:
                 behs.append([list(m["parts"]), h, False, [], ["SyntaxError"]])
             else:
-                effs = [[e[0]] + ([parts_of(e[1])] if e[0] in ("ins0", "app") else [[parts_of(x) for x in e[1]]] if e[0] == "rebind" else []) for e in m["effects"]]
+                effs = [enc_effect(e) for e in m["effects"]]
                 behs.append([list(m["parts"]), h, True, effs, [FAULT_EXN[m["fault"]]] if m["fault"] else []])
             if m["walk"]:
                 walks.append([list(m["parts"]), m["walk"]])
@@ -554,6 +592,7 @@ import json, os, select, signal, sys, time, traceback
 
 def run_case(c, griffe, L, I, Path):
     import builtins
+    builtins._c15_nested = False
     os.chdir(c["cwd"])
     os.environ["C15_LOG"] = c["log"]
     open(c["log"], "w").close()
@@ -587,24 +626,35 @@ def run_case(c, griffe, L, I, Path):
             return f()
         finally:
             current[0] = old
+    def nested():       # Griffe called by the analysed code itself at import time: not part of the observed load
+        return getattr(builtins, "_c15_nested", False)
     def v(self, module_name, module_path, parent=None):
+        if nested():
+            return ov(self, module_name, module_path, parent)
         events.append(["visit", dotted(module_name, parent), module_path.suffix])
         return within([dotted(module_name, parent), module_path.suffix], module_path, lambda: ov(self, module_name, module_path, parent))
     def i(self, module_name, filepath=None, parent=None):
+        if nested():
+            return oi(self, module_name, filepath, parent)
         sfx = filepath.suffix if filepath is not None else ""
         events.append(["inspect", dotted(module_name, parent), sfx])
         return within([dotted(module_name, parent), sfx], filepath, lambda: oi(self, module_name, filepath, parent))
     ort = Path.read_text
     def rt(self, *a, **kw):
-        if current[0] is not None and str(self) == current[0][1]:      # the loader reads the file of the module it is working on
+        if current[0] is not None and not nested() and str(self) == current[0][1]:      # the loader reads the file of the module it is working on
             reads.append(current[0][0])
         return ort(self, *a, **kw)
     Path.read_text = rt
     def cr(self, module_name, module_path):
-        events.append(["create", module_name, ""]); return oc(self, module_name, module_path)
+        if not nested():
+            events.append(["create", module_name, ""])
+        return oc(self, module_name, module_path)
     depth = [0]
+    step = [0]
     def ld(self, objspec=None, /, **kw):
-        rec = [str(objspec), kw.get("try_relative_path", True), None, depth[0], max(0, len(loaders) - 1), kw.get("submodules", True), kw.get("find_stubs_package", False)]
+        if nested():
+            return ol(self, objspec, **kw)
+        rec = [str(objspec), kw.get("try_relative_path", True), None, depth[0], max(0, len(loaders) - 1), kw.get("submodules", True), kw.get("find_stubs_package", False), step[0]]
         loads.append(rec)
         depth[0] += 1
         try:
@@ -614,7 +664,10 @@ def run_case(c, griffe, L, I, Path):
         finally:
             depth[0] -= 1
     def init(self, *a, **kw):
-        oinit(self, *a, **kw); holder.setdefault("loader", self)
+        oinit(self, *a, **kw)
+        if nested():
+            return
+        holder.setdefault("loader", self)
         sp = kw.get("search_paths")
         loaders.append({"obj": self, "allow": self.allow_inspection, "force": self.force_inspection, "store": self.store_source,
                         "given": None if sp is None else [str(x) for x in sp], "finder": [str(x) for x in self.finder.search_paths],
@@ -625,6 +678,24 @@ def run_case(c, griffe, L, I, Path):
         if c["kind"] == "load":
             objspec = Path(c["objspec"]) if c["as_path"] else c["objspec"]
             griffe.load(objspec, search_paths=c["search"], **c["opts"])
+        elif c["kind"] == "history":
+            # several calls on ONE loader; the caller swallows ordinary exceptions between calls; the options are looked at after each call
+            hl = GL(search_paths=c["search"], allow_inspection=c["opts"]["allow_inspection"], force_inspection=c["opts"]["force_inspection"])
+            res["steps"] = []
+            for k, st in enumerate(c["steps"]):
+                step[0] = k
+                try:
+                    if st[0] == "load":
+                        hl.load(st[1], submodules=st[2], try_relative_path=False)
+                    else:
+                        hl.resolve_aliases(implicit=st[1], external=st[2])
+                    oc_ = "ok"
+                except BaseException as e:  # noqa: BLE001
+                    oc_ = type(e).__name__
+                    if not isinstance(e, Exception):      # not swallowed by the caller: the history ends here
+                        res["steps"].append([oc_, bool(hl.allow_inspection), bool(hl.force_inspection), bool(hl.store_source)])
+                        raise
+                res["steps"].append([oc_, bool(hl.allow_inspection), bool(hl.force_inspection), bool(hl.store_source)])
         elif c["kind"] == "load_git":
             objspec = Path(c["objspec"]) if c["as_path"] else c["objspec"]
             griffe.load_git(objspec, ref=c["ref"], repo=c["repo"], search_paths=c["search_rel"], **c["call_opts"])
@@ -829,6 +900,27 @@ def make_entry_case(base, tree, cid, opts, entry):
     return c
 
 
+SWALLOWED = [e for e in ALL_EXN if e not in ("SystemExit", "KeyboardInterrupt", "PanicException")]     # `except Exception` between the calls of a history
+
+
+def make_history_case(base, tree, cid, opts, rng):
+    """load the root, resolve aliases (loading external packages), then load other packages of the layout, all on one loader"""
+    root = tree["root"]
+    others = [p for p in tree["pkgs"][1:] if p["kind"] == "regular"]
+    rng.shuffle(others)
+    # packages with something that cannot be visited first: they tell an inspecting loader from a static one
+    others.sort(key=lambda p: not any(m["kind"] in ("pyc", "so") for m in p["mods"]))
+    steps = [["load", root, opts["submodules"]], ["resolve", opts["resolve_implicit"], opts["resolve_external"]]]
+    steps += [["load", p["name"], True] for p in others[:2]]
+    if rng.random() < 0.4:
+        steps.append(["resolve", True, True])
+    search = [str(base / sp) for sp in tree["sps"]]
+    return {"id": cid, "tid": tree["tid"], "kind": "history", "by": "history", "search": search, "eff_search": list(search), "cwd": str(base / "cwd"),
+            "objspec": root, "as_path": False, "steps": steps, "extra": "history:" + ",".join(x[0] + ":" + str(x[1]) for x in steps), "syspath_add": search if cid % 3 else [], "syspath_mode": "",
+            "opts": dict(opts, find_stubs_package=False, try_relative_path=False, resolve_aliases=False),
+            "log": str(base / f"log-{cid}.txt"), "names": sorted({p["name"] for p in tree["pkgs"]} | {"ghost"})}
+
+
 def request_trees(loads):
     """the nesting of GriffeLoader.load calls (name, depth in call order) as request trees"""
     roots, stack = [], []
@@ -995,6 +1087,15 @@ def model_input(base, tree, case, reqs, obs):
     order = {}
     for i, e in enumerate(obs.get("events", [])):
         order.setdefault((e[1], e[2]), []).append(i)
+    if case["kind"] == "history":
+        steps = []
+        for k, st in enumerate(case["steps"]):
+            trees = request_trees([c for c in obs.get("loads", []) if c[7] == k])
+            if len(obs.get("steps", [])) <= k:
+                break         # the history stopped before this call (an exit escaped)
+            steps.append([st[2], trees[:1], trees[1:]] if st[0] == "load" else [True, [], trees])
+        return ["history", o["allow_inspection"], o["force_inspection"], True, [parts_of(x) for x in resolved_unique(case["search"])],
+                world_of(base, tree, case, order), steps, SWALLOWED, syspath]
     trees = request_trees(obs.get("loads", []))
     if trees:
         trees[0][0] = root_key(tree, case)
@@ -1045,6 +1146,12 @@ def canon_model(out, names, before=("<orig>",)):
 def root_indices(case, o):
     """which GriffeLoader.load calls are the entry point's own (the others are re-entries)"""
     loads = o.get("loads", [])
+    if case.get("kind") == "history":      # the first load call of every load step
+        first = {}
+        for i, c in enumerate(loads):
+            if case["steps"][c[7]][0] == "load":
+                first.setdefault(c[7], i)
+        return set(first.values())
     if case.get("entry") == "dump":
         return {i for i, c in enumerate(loads) if c[3] == 0 and c[1] is not False}
     first = {}
@@ -1077,7 +1184,7 @@ def check_load(ctx, base, tree, case, o, G, use_model, batch):
     """direct evaluation of the property on the observation; queues the model comparison"""
     opts = case["opts"]
     k0 = key_of(case)
-    k = fail_key(tree, case)
+    k = k_ = fail_key(tree, case)
     static = not opts["allow_inspection"] and not opts["force_inspection"]
     if "died" in o or "harness_error" in o:
         if o.get("timed_out"):
@@ -1098,6 +1205,12 @@ def check_load(ctx, base, tree, case, o, G, use_model, batch):
     ctx.observe("reentries", min(len(o["loads"]) - 1, 5))
     for e in o["events"]:
         ctx.observe("agent", f"{e[0]}{e[2]}")
+    ran = {e["exec"] for e in o["execs"]}
+    for p in tree["pkgs"]:
+        for m in p["mods"]:
+            if ".".join(m["parts"]) in ran and m["kind"] not in ("pyi", "initpyi", "so"):
+                for e in m["effects"]:
+                    ctx.observe("effect_executed", e[0] + (":" + e[3] if e[0] == "scope" else ""))
     # ---- sys.path: same object, same contents, whatever happened
     if not (o["path_same_object"] and o["path_same_contents"] and o["orig_contents_same"]):
         ctx.property_failure(k, {"sys.path not restored": {x: o[x] for x in ("path_same_object", "path_same_contents", "orig_contents_same", "orig_now")},
@@ -1135,7 +1248,16 @@ def check_load(ctx, base, tree, case, o, G, use_model, batch):
     outcomes = {c[0]: c[2] for c in re_calls}
     reqs = [c[0] for c in re_calls]
     ctx.observe("load_nesting_depth", max([c[3] for c in o["loads"]] or [0]))
-    if o["result"] == "ok" and not case.get("builtin") and len(roots) == 1:
+    if case["kind"] == "history":
+        ctx.observe("history_steps", len(o.get("steps", [])))
+        for si, stp in enumerate(o.get("steps", [])):
+            ctx.observe("history_step_outcome", stp[0])
+            if stp[1:3] != [opts["allow_inspection"], opts["force_inspection"]]:
+                # the model runs every call of a history with the loader's own options: they must not move
+                ctx.tie_failure("correspondence", "allow_inspection / force_inspection of the loader after a call vs the values it was built with",
+                                {"after_step": [si, case["steps"][si]], "now": stp[1:3], "built_with": [opts["allow_inspection"], opts["force_inspection"]]}, k_)
+                break
+    if o["result"] == "ok" and not case.get("builtin") and len(roots) == 1 and case["kind"] != "history":
         f = found_of(base, tree, tree["root"], opts["find_stubs_package"], hidden=case["by"] == "hidden")
         exp = expected_reentries(tree, case, outcomes, G, root_has_stubs=f[0] == "pkg" and bool(f[3]))
         if sorted(exp) != sorted(reqs):
@@ -1177,7 +1299,7 @@ def check_entry_ties(ctx, batch):
             ld, subm = x
             ctx.observe("entry_point", ep)
             got = [int(ld["allow"]), int(ld["force"]), int(ld["store"])]
-            if out[:3] != got or any(int(bool(v)) != out[3] for v in subm):
+            if out[:3] != got or (case["kind"] != "history" and any(int(bool(v)) != out[3] for v in subm)):
                 ctx.tie_failure("correspondence", f"entry_allow/force/store/submodules(model) vs what {ep} hands to GriffeLoader",
                                 {"model": out[:4], "impl": got + [subm]}, k)
 
@@ -1193,12 +1315,12 @@ def compare_models(ctx, base_of, batch):
             ctx.tie_failure("harness", "model rejected the input", None, k)
             continue
         m = canon_model(out, set(case["names"]) | ({case["builtin"]} if case.get("builtin") else set()), o.get("before") or ["<orig>"])
-        r = canon_obs(o, root_key(tree, case) if case.get("entry") != "dump" else None, root_indices(case, o))
+        r = canon_obs(o, root_key(tree, case) if case.get("entry") != "dump" and case["kind"] != "history" else None, root_indices(case, o))
         if case.get("builtin"):
             m["mods"] -= {case["builtin"]}
             r["loaded"] -= {x for x in r["loaded"] if x != case["builtin"]}
         diff = {f: {"model": _show(m[f]), "impl": _show(r[f])} for f in ("result", "outcomes", "agents", "sequence", "reads", "loaded", "execs", "mods", "restored")
-                if m[f] != r[f] and not (f == "loaded" and (r["result"] != "ok" or len(o.get("loaders", [])) > 1))}
+                if m[f] != r[f] and not (f == "loaded" and (r["result"] != "ok" or len(o.get("loaders", [])) > 1 or case["kind"] == "history"))}
         for s in m["skips"]:
             ctx.observe("model_branch", "skip" + s[2])
         for s in m["orphans"]:
@@ -1429,6 +1551,16 @@ def build_cases(ctx, base_root, n_random, per_tree_static, per_tree_dyn, with_sy
         for o, by in combos:
             cases.append((t, make_case(base, t, cid, o, by)))
             cid += 1
+        # histories on one loader: load, resolve_aliases (loading external packages), load again
+        if len(t["pkgs"]) > 1 and ((not systematic and rng.random() < 0.3) or (systematic and int(t["tid"][1:]) % 3 == 0)):
+            for j in range(2 if n_dyn else 1):
+                o = static_opts(rng)
+                o.update(resolve_external=rng.choice([True, True, None]), resolve_implicit=rng.random() < 0.7)
+                if j == 1:
+                    a, f = rng.choice(dyn_flags)
+                    o.update(allow_inspection=a, force_inspection=f)
+                cases.append((t, make_history_case(base, t, cid, o, rng)))
+                cid += 1
         # the other entry points: load_git, `griffe dump`, `griffe check` (old reference + new reference / working tree)
         if (not systematic and rng.random() < 0.35) or (systematic and int(t["tid"][1:]) % 4 == 0):
             ecases = []
@@ -1490,9 +1622,11 @@ def explore(ctx):
     # every branch of the model must have been reached
     need = {"mode": ["static", "allow", "force", "allow+force"], "result": ["ok", "LoadingError", "ModuleNotFoundError", "ImportError", "FileNotFoundError"],
             "model_branch": ["orphan", "skip.so", "skip.py", "skip.pyc"],
-            "by": ["name", "path", "relpath", "hidden", "missing_path", "stale_search", "default_search", "load_git", "dump", "check_tree", "check_ref"],
+            "by": ["name", "path", "relpath", "hidden", "missing_path", "stale_search", "default_search", "load_git", "dump", "check_tree", "check_ref", "history"],
             "entry_point": ["load", "load_git", "dump", "check_old", "check_new_ref", "check_new_tree"], "finder_paths": ["given", "sys.path"],
-            "load_nesting_depth": [0, 1, 2]}
+            "load_nesting_depth": [0, 1, 2],
+            "effect_executed": ["ins0", "rebind", "clear", "scope:sys_path", "scope:dynamic_import_fail", "scope:dynamic_import_ok", "scope:inspect_ok",
+                                "scope:load_ok", "scope:load_fail"]}
     for d, keys in need.items():
         for kx in keys:
             if not ctx.dist.get(d, {}).get(str(kx)):
